@@ -766,3 +766,6 @@ def run(ctx):
     if opener:
         r4_lookup(ctx, R, opener)
     r5_config_plumbing(ctx, R)
+    # "the request's Accept-Encoding prefers gzip" is what should_gzip computes: its rules (C16.R1-R4) are premises here
+    from . import C16
+    C16.run(ctx)
